@@ -25,7 +25,7 @@ vars == <<l, ph, has, nb, ok, ub, viol, dev, stat>>
 Rec == TraceLog[l]
 
 Ops == {"Find", "FindMax", "MoveI", "MoveB", "Cross", "SetDir", "Safety"}
-Kinds == Ops \cup {"Init", "judged", "unjudged", "facts_U", "rays", "sphere_pts", "safety_pos", "histories",
+Kinds == Ops \cup {"Init", "judged", "unjudged", "facts_U", "rays", "sphere_pts", "safety_pos", "histories", "near_bounds",
                    "turns_exiting", "turns_reentrant", "turns_near_tangent"}
 
 Init ==
@@ -152,12 +152,15 @@ TSafety ==
   /\ l > 1 /\ Rec.e = "Safety" /\ ph = "I"
   /\ LET cl == (IF Rec.sneg THEN {"C11.SafetyNonNegative"} ELSE {})
                \cup (IF Rec.rays_ok THEN {} ELSE {"C11.SafetyConservative"})
+               \* s <= every confirmed upper bound of the true distance to the volume's boundary (oracle:
+               \* closest points of the surrounding surfaces, confirmed by point location)
+               \cup (IF Rec.near_ok THEN {} ELSE {"C11.SafetyConservative"})
                \cup IfF(Rec.sphere_ok, "C11.SafetyConservative")
                \cup StateClauses(Rec, "I")
      IN /\ viol' = Bump(viol, IF ok THEN cl ELSE {}) /\ dev' = dev
         /\ stat' = [stat EXCEPT !["Safety"] = @ + 1, ![IF ok THEN "judged" ELSE "unjudged"] = @ + 1,
                                 !["facts_U"] = @ + NumU(Rec), !["rays"] = @ + Rec.nrays,
-                                !["sphere_pts"] = @ + Rec.nsphere,
+                                !["sphere_pts"] = @ + Rec.nsphere, !["near_bounds"] = @ + Rec.nnear,
                                 !["safety_pos"] = @ + (IF Rec.spos THEN 1 ELSE 0)]
         /\ ok' = (ok /\ cl = {})
   /\ UNCHANGED <<ph, has, nb, ub>>
